@@ -13,6 +13,7 @@ pub fn configs(tier: Tier) -> Vec<Box<dyn Config>> {
     v.push(Box::new(ZstManyMut));
     v.push(Box::new(super::widebattery::WideBattery { tier, part: super::widebattery::Part::ManyMut }));
     v.push(Box::new(UnsizedKeys));
+    v.push(Box::new(ScriptedEq { tier }));
     // scripted deep tables: elements displaced into a second probe group, tombstones, full load
     {
         use crate::explore::Limits;
@@ -290,5 +291,159 @@ impl Config for UnsizedKeys {
             Ok(r) => r.map(|_| ()),
             Err(m) => Err(m),
         }
+    }
+}
+
+// ---------------------------------------------------------------------------
+// Equality answers that change from call to call: `HashTable::get_many_mut` takes an `FnMut`, `HashMap::get_many_mut`
+// any `Equivalent` implementation. Every answer script of bounded length is enumerated (call k of the predicate
+// returns bit k of the script, `false` once the script is used up); whatever the answers are, the references that
+// come back must point to pairwise different live entries, or the call must panic with the documented message.
+// ---------------------------------------------------------------------------
+
+pub struct ScriptedEq {
+    pub tier: Tier,
+}
+
+thread_local! {
+    static SCRIPT: std::cell::Cell<(u32, u32, u32)> = const { std::cell::Cell::new((0, 0, 0)) }; // (bits, length, calls so far)
+}
+fn script_next() -> bool {
+    SCRIPT.with(|c| {
+        let (bits, len, k) = c.get();
+        c.set((bits, len, k + 1));
+        k < len && bits >> k & 1 == 1
+    })
+}
+
+#[derive(Clone, Copy)]
+struct ScriptedKey;
+impl std::hash::Hash for ScriptedKey {
+    fn hash<H: std::hash::Hasher>(&self, s: &mut H) {
+        s.write_u32(7);
+    }
+}
+impl hashbrown::Equivalent<u32> for ScriptedKey {
+    fn equivalent(&self, _k: &u32) -> bool {
+        script_next()
+    }
+}
+#[derive(Clone, Default)]
+struct ConstBuild;
+struct ConstHasher;
+impl std::hash::Hasher for ConstHasher {
+    fn finish(&self) -> u64 {
+        7
+    }
+    fn write(&mut self, _: &[u8]) {}
+}
+impl std::hash::BuildHasher for ConstBuild {
+    type Hasher = ConstHasher;
+    fn build_hasher(&self) -> ConstHasher {
+        ConstHasher
+    }
+}
+
+fn scripted_case(n: u32, reqs: usize, bits: u32, len: u32, map: bool) -> Result<(), String> {
+    let what = || format!("{} with {n} entries of one hash, {reqs} requests, equality answers {:0w$b} (first call = lowest bit)", if map { "HashMap::get_many_mut" } else { "HashTable::get_many_mut" }, bits, w = len as usize);
+    SCRIPT.with(|c| c.set((bits, len, 0)));
+    let check = |ptrs: Vec<Option<(*const u32, u32)>>, live: &dyn Fn(*const u32) -> bool| -> Result<(), String> {
+        for (i, a) in ptrs.iter().enumerate() {
+            if let Some((pa, va)) = a {
+                if !live(*pa) || *va >= n {
+                    return Err(format!("{}: request #{i} got a reference that is not an entry of the table", what()));
+                }
+                for (j, b) in ptrs.iter().enumerate().take(i) {
+                    if let Some((pb, _)) = b {
+                        if pa == pb {
+                            return Err(format!("{}: requests #{j} and #{i} got mutable references to the same entry", what()));
+                        }
+                    }
+                }
+            }
+        }
+        Ok(())
+    };
+    let verdict = |r: Result<Vec<Option<(*const u32, u32)>>, String>, live: &dyn Fn(*const u32) -> bool| -> Result<(), String> {
+        match r {
+            Ok(p) => check(p, live),
+            Err(m) if m.contains("duplicate") => Ok(()),
+            Err(m) => Err(format!("{}: panicked with an undocumented message: {m}", what())),
+        }
+    };
+    if map {
+        let mut m: hashbrown::HashMap<u32, u32, ConstBuild> = hashbrown::HashMap::with_hasher(ConstBuild);
+        for i in 0..n {
+            m.insert(i, i);
+        }
+        let addrs: Vec<*const u32> = m.values().map(|v| v as *const u32).collect();
+        let live = |p: *const u32| addrs.contains(&p);
+        let k = ScriptedKey;
+        let r = env::catch(|| match reqs {
+            2 => m.get_many_mut([&k, &k]).into_iter().map(|o| o.map(|v| (v as *const u32, *v))).collect::<Vec<_>>(),
+            3 => m.get_many_mut([&k, &k, &k]).into_iter().map(|o| o.map(|v| (v as *const u32, *v))).collect::<Vec<_>>(),
+            _ => m.get_many_key_value_mut([&k, &k]).into_iter().map(|o| o.map(|(_, v)| (v as *const u32, *v))).collect::<Vec<_>>(),
+        });
+        verdict(r, &live)
+    } else {
+        let mut t: hashbrown::HashTable<u32> = hashbrown::HashTable::new();
+        for i in 0..n {
+            t.insert_unique(7, i, |_| 7);
+        }
+        let addrs: Vec<*const u32> = t.iter().map(|v| v as *const u32).collect();
+        let live = |p: *const u32| addrs.contains(&p);
+        let r = env::catch(|| match reqs {
+            2 => t.get_many_mut([7, 7], |_, _| script_next()).into_iter().map(|o| o.map(|v| (v as *const u32, *v))).collect::<Vec<_>>(),
+            _ => t.get_many_mut([7, 7, 7], |_, _| script_next()).into_iter().map(|o| o.map(|v| (v as *const u32, *v))).collect::<Vec<_>>(),
+        });
+        verdict(r, &live)
+    }
+}
+
+fn scripted_all(tier: Tier, count: &mut u64) -> Result<(), (Value, String)> {
+    let len: u32 = if tier == Tier::Quick { 10 } else { 14 };
+    for map in [false, true] {
+        for n in 1..=4u32 {
+            for reqs in [2usize, 3, 4] {
+                if !map && reqs == 4 {
+                    continue;
+                }
+                for bits in 0..(1u32 << len) {
+                    *count += 1;
+                    if let Err(m) = scripted_case(n, reqs, bits, len, map) {
+                        return Err((json!({"scripted_eq": {"n": n, "reqs": reqs, "bits": bits, "len": len, "map": map}}), m));
+                    }
+                }
+            }
+        }
+    }
+    Ok(())
+}
+
+impl Config for ScriptedEq {
+    fn label(&self) -> String {
+        "scripted-equality-answers".into()
+    }
+    fn run(&self) -> ConfigReport {
+        crate::crumbs::set_config(&self.label());
+        let t0 = std::time::Instant::now();
+        env::reset();
+        let mut rep = ConfigReport { label: self.label(), mode: "enum(answer scripts of the equality predicate)".into(), exhaustive: true, ..Default::default() };
+        let mut n = 0u64;
+        let r = scripted_all(self.tier, &mut n);
+        rep.executions = n;
+        rep.states = n;
+        rep.detail = json!({"entries": "1..=4 with one hash", "requests": "2, 3 (HashTable, HashMap), 2 through get_many_key_value_mut", "script_length": if self.tier == Tier::Quick { 10 } else { 14 }, "distinct_nontrivial": n});
+        if let Err((rp, m)) = r {
+            rep.violations.push(Viol { config: self.label(), message: m, replay: rp });
+        }
+        rep.wall_s = t0.elapsed().as_secs_f64();
+        rep
+    }
+    fn replay(&self, rp: &Value) -> Result<(), String> {
+        let c = &rp["scripted_eq"];
+        let g = |k: &str| c[k].as_u64().unwrap_or(0);
+        env::reset();
+        scripted_case(g("n") as u32, g("reqs") as usize, g("bits") as u32, g("len") as u32, c["map"].as_bool().unwrap_or(false))
     }
 }
